@@ -197,8 +197,13 @@ inline Number parseNumber(const char* s) {
 
     while (isdigit(*s)) {
       exponent = exponent * 10 + (*s - '0');
-      if (exponent + exponent_offset > traits::exponent_max) {
-        if (negative_exponent || mantissa == 0)
+      if (negative_exponent) {
+        // the final exponent is exponent_offset - exponent; the mantissa has at
+        // most 20 digits, so below this point the value is out of range
+        if (exponent - exponent_offset > traits::exponent_max + 20)
+          return Number(is_negative ? -0.0f : 0.0f);
+      } else if (exponent + exponent_offset > traits::exponent_max) {
+        if (mantissa == 0)
           return Number(is_negative ? -0.0f : 0.0f);
         else
           return Number(is_negative ? -traits::inf() : traits::inf());
